@@ -389,3 +389,24 @@ def c17(c):
     c.add_traces(to, keyfn=babai_key)
     c.assumptions += ["the reduction's internal floating-point quotient is not specified -- only its postconditions",
                       "when f is not invertible modulo 18433 or 40961 the multiple k is not reconstructed (branch '-kskipped'); the invariant still is"]
+
+
+def c16(c):
+    thorough = c.tier == "thorough"
+    c.cov["rule"] = ("three-way exchange with the vendored PQClean build: keys made on either side decoded by the other (and re-encoded "
+                     "identically), signatures made on either side -- with keys made on either side -- verified by the other after Reframe "
+                     "(header 0x59/0x5a <-> 0x39/0x3a, zero padding stripped / restored); every cross-verdict must be TRUE (Trace_Interop) and "
+                     "every exchanged signature is a heavy event re-verified by TLC from its bytes against the TLA+ Verify (Trace_Verify), so "
+                     "the reference's signatures also validate the specification. MC: toy-ring Completeness against the specification's "
+                     "Verify for every candidate (MC_Falcon algebra) and the encodings (MC_KeyCodec)")
+    _mc_falcon(c, ["algebra"], [])
+    mc = McOutcome()
+    model_check(mc, [dict(module="MC_KeyCodec", cfg="MC_KeyCodec", workers=16)])
+    c.add_mc(mc)
+    drive("c16", ["--tier", c.tier, "--seed", c.seed, "--out", c.work, "--shards", 14], timeout=7200)
+    to = validate_traces("Trace_Interop", traces_in(c.work, "cross"), parallel=1)
+    c.add_traces(to, keyfn=generic_key, label="cross")
+    to = validate_traces("Trace_Verify", traces_in(c.work, "verify"), parallel=PAR, timeout=7200)
+    c.add_traces(to, keyfn=verify_key, label="verify")
+    c.assumptions += ["the reference is the PQClean build vendored in the cargo cache (pqcrypto-falcon 0.3.0); its RNG is its own",
+                      "only the 'compressed' signature format of that version is exercised"]
